@@ -31,6 +31,7 @@
 // refresh (counter, notifies to the peer, timestamp current, announced timeout ms), 11 stream exited,
 // 12 p late timing (period ms snapped to the announced timeout or timeout-2s, gaps above timeout+tol),
 // 13 site panic, 14 b subscribed, 15 [c] stored counter, 16 g live fast c nn mono after a burst: stream left over,
+// 17 a call or a resumed stream got stuck;
 // distinct streams that refreshed, the n refreshes came quicker than one stream produces them, last counter, notifies, counters increased.
 package main
 
@@ -366,6 +367,7 @@ var stats = struct {
 	refreshes   int
 	realTimeRun int
 	bursts      int
+	stuck       int
 	probe       string
 }{gaps: map[int64][]int64{}}
 
@@ -472,7 +474,7 @@ func (m *impl) Close() {
 		}
 	}
 	for _, w := range m.threads {
-		if poison && w.call == 2 && w.state == 2 {
+		if (poison && w.call == 2 && w.state == 2) || w.state == 4 {
 			continue
 		}
 		select {
@@ -627,9 +629,39 @@ func panicSite(s string) int64 {
 }
 
 // outcome of a worker that reached a hook, returned or blocked; then what the release of stopMux let happen
+// a goroutine that waits for a mutex although no call is parked inside the critical section: wait whether it
+// gets through after all (a stream may hold the data lock for the length of a slow write); if not it is stuck
+var stuckPatience = 2 * time.Second
+
+func (m *impl) holderParked(w *worker) bool {
+	for _, o := range m.threads {
+		if o != w && o.state == 2 {
+			return true
+		}
+	}
+	return false
+}
+
 func (m *impl) report(w *worker, st int, nBefore int) []hx.Zs {
 	switch st {
 	case 1:
+		if !m.holderParked(w) {
+			select {
+			case h := <-w.parked:
+				w.state, w.hook = 2, h
+				return m.report(w, 2, nBefore)
+			case <-w.done:
+				w.state = 3
+				return m.report(w, 3, nBefore)
+			case <-time.After(stuckPatience):
+			}
+			stuckPatience = 300 * time.Millisecond
+			w.state = 4
+			stats.Lock()
+			stats.stuck++
+			stats.Unlock()
+			return []hx.Zs{{17}}
+		}
 		m.waiter = w
 		return []hx.Zs{{2}}
 	case 2:
@@ -677,8 +709,13 @@ func (m *impl) report(w *worker, st int, nBefore int) []hx.Zs {
 			wt := m.waiter
 			n2 := m.streamCount()
 			s2 := m.sc.settle(wt)
-			if s2 == 1 {
-				return append(out, hx.Zs{96})
+			if s2 == 1 { // the holder is through and the waiter still waits: for something else
+				m.waiter = nil
+				res := m.report(wt, 1, n2)
+				if len(res) == 1 && len(res[0]) == 1 && res[0][0] == 17 {
+					return append(out, res...)
+				}
+				return append(append(out, hx.Zs{8, wt.tid}), res...)
 			}
 			m.waiter = nil
 			out = append(out, hx.Zs{8, wt.tid})
@@ -1028,10 +1065,18 @@ func (m *impl) tick(st *stream, period time.Duration) []hx.Zs {
 	case <-st.exited:
 		st.reported = true
 		return []hx.Zs{{11}}
-	case <-time.After(3 * time.Second):
-		return []hx.Zs{{96}}
+	case <-time.After(streamPatience):
+		// released at Heartbeat.fired, and neither a refresh nor the exit follows: it hangs on the data lock
+		streamPatience = 500 * time.Millisecond
+		st.reported = true
+		stats.Lock()
+		stats.stuck++
+		stats.Unlock()
+		return []hx.Zs{{17}}
 	}
 }
+
+var streamPatience = 3 * time.Second
 
 func (m *impl) runK(st *stream, k int, period time.Duration) []hx.Zs {
 	select {
@@ -1265,11 +1310,20 @@ func gen(r *hx.Rng, tier string, i int) []hx.Zs {
 			case 1:
 				h = append(h, call(0, 0))
 			case 2:
+				if r.Chance(1, 2) { // more than a period passes: the stream has taken its tick when the stop comes
+					h = append(h, hx.Zs{7, 1})
+				}
 				h = append(h, seq(0, 1)...)
 				tickSome(r.Range(1, 2))
 			case 3:
+				if r.Chance(1, 3) {
+					h = append(h, hx.Zs{7, 1})
+				}
 				h = append(h, seq(0, 2)...)
 				streams++
+				if r.Chance(1, 2) {
+					h = append(h, hx.Zs{3, streams - 2}, hx.Zs{3, streams - 1})
+				}
 			case 4:
 				h = append(h, seq(0, 4)...)
 				tickSome(1)
@@ -1360,9 +1414,13 @@ func fixed(tier string) [][]hx.Zs {
 		cat([]hx.Zs{{0, 100}, {5}}, add, []hx.Zs{{3, 0}}, seq(1, 1), []hx.Zs{{3, 0}, {3, 0}, {7}}),
 		// the ticker fired before the stop and again while the stream was held: one iteration was in flight; after it
 		// select finds ticker and stop channel ready (pinned: it may refresh a second time; repeated, the choice is random)
-		cat([]hx.Zs{{0, 100}, {5}}, add, []hx.Zs{call(1, 1), {7, 1}, resume(1), {7, 1}, {3, 0}, {3, 0}, {7}}),
-		cat([]hx.Zs{{0, 100}}, add, []hx.Zs{call(1, 1), {7, 1}, resume(1), {7, 1}, {3, 0}, {3, 0}, {7, 1}}),
-		cat([]hx.Zs{{0, 100}, {5}}, add, []hx.Zs{call(2, 4), {7, 1}, resume(2), {7, 1}, {3, 0}, {3, 0}, {3, 0}, {7}}),
+		// ... and afterwards the heartbeat must be startable and refresh again (the exit of the stopped stream must
+		// leave nothing locked)
+		cat([]hx.Zs{{0, 100}, {5}}, add, []hx.Zs{call(1, 1), {7, 1}, resume(1), {7, 1}, {3, 0}, {3, 0}, {7}}, seq(3, 2), []hx.Zs{{3, 1}, {3, 1}, call(0, 0)}, seq(4, 3), seq(3, 1), []hx.Zs{{3, 1}, {7}}),
+		cat([]hx.Zs{{0, 100}}, add, []hx.Zs{call(1, 1), {7, 1}, resume(1), {7, 1}, {3, 0}, {3, 0}, {7, 1}}, seq(3, 2), []hx.Zs{{3, 1}, {4, 1, 3}, call(0, 0)}),
+		cat([]hx.Zs{{0, 100}, {5}}, add, []hx.Zs{call(2, 4), {7, 1}, resume(2), {7, 1}, {3, 0}, {3, 0}, {3, 0}, {7}}, seq(3, 2), []hx.Zs{{3, 1}, {3, 1}, call(0, 0)}),
+		// a restart while the old stream is held after its tick fired: the new stream exists already when the old one exits
+		cat([]hx.Zs{{0, 100}, {5}}, add, []hx.Zs{{3, 0}, call(1, 2), {7, 1}, resume(1), resume(1), {3, 0}, {3, 1}, {3, 1}, call(0, 0)}, seq(2, 1), []hx.Zs{{3, 1}, {7}}, seq(2, 2), []hx.Zs{{3, 2}}),
 		// a stop parked after its check while a start replaces the stream (pinned: the stop then closes the new stream's channel)
 		cat([]hx.Zs{{0, 100}, {5}}, add, []hx.Zs{call(1, 1), call(2, 2), resume(2), resume(2), resume(1), resume(2), resume(2), {3, 0}, {3, 1}, call(3, 0)}),
 		// announced timeout above 2 s: the period is shortened by 2 s
@@ -1407,7 +1465,7 @@ func extra() map[string]any {
 		gaps[fmt.Sprintf("timeout_%dms", t)] = map[string]any{"expected_period_ms": exp, "gaps": len(s), "min_ms": s[0], "median_ms": s[len(s)/2], "max_ms": s[len(s)-1],
 			"tolerance_ms": tolOf(t).Milliseconds()}
 	}
-	return map[string]any{"measured_periods": gaps, "refreshes_observed": stats.refreshes, "real_time_runs": stats.realTimeRun, "bursts": stats.bursts,
+	return map[string]any{"measured_periods": gaps, "refreshes_observed": stats.refreshes, "real_time_runs": stats.realTimeRun, "bursts": stats.bursts, "stuck_calls_or_streams": stats.stuck,
 		"start_without_feature_probe": stats.probe,
 		"runtime_parts":               "wall-clock period (measured per real-time run, tolerance 60 ms + timeout/4), timestamp within 1.5 s of the observation, select's choice (forced through the hooks) are measured, not proved"}
 }
@@ -1421,12 +1479,12 @@ func main() {
 		Property: "C16",
 		Clauses: map[int64]string{1: "panic", 2: "counter-not-increasing", 3: "refresh-not-notified-once", 4: "two-concurrent-streams",
 			5: "refresh-after-stop", 6: "period-exceeds-timeout", 7: "stale-timestamp-or-timeout", 8: "running-flag-wrong",
-			9: "data-changed-without-refresh", 10: "malformed-observation", 98: "unparseable-observation", 99: "unparseable-operation"},
+			9: "data-changed-without-refresh", 10: "malformed-observation", 11: "call-or-stream-stuck", 98: "unparseable-observation", 99: "unparseable-operation"},
 		OpNames: map[int64]string{0: "setup", 1: "call", 2: "resume", 3: "tick", 4: "run-real-time", 5: "subscribe", 6: "unsubscribe", 7: "read", 8: "burst-of-starts"},
 		NewImpl: newImpl,
 		Gen:     gen,
 		Fixed:   fixed,
-		Count:   map[string]int{"quick": 48, "thorough": 1100},
+		Count:   map[string]int{"quick": 40, "thorough": 1100},
 		Extra:   extra,
 	})
 }
